@@ -118,7 +118,7 @@ func (t SSE) Do(w http.ResponseWriter, r *http.Request, exec graphql.GraphExecut
 	} else {
 		responses, ctx := exec.DispatchOperation(ctx, rc)
 		for {
-			response := responses(ctx)
+			response, failed := nextResponse(ctx, rc, responses)
 			if response == nil {
 				break
 			}
@@ -128,6 +128,9 @@ func (t SSE) Do(w http.ResponseWriter, r *http.Request, exec graphql.GraphExecut
 			c.mu.Unlock()
 
 			c.resetTicker(t.KeepAlivePingInterval)
+			if failed {
+				break
+			}
 		}
 	}
 
